@@ -279,6 +279,7 @@ func c12FloodRun(run *vfRun, c c12FloodCase) {
 	var last c12CacheStats
 	liveCache := "cache hook never fired"
 	var hookFirings int64
+	var ownCached int32
 	nt.mu.Lock()
 	nt.onHook = func(name string, n *vfbNode, args []any) {
 		if name != "aggregator.cache" || len(args) == 0 {
@@ -307,6 +308,11 @@ func c12FloodRun(run *vfRun, c c12FloodCase) {
 				}
 				sort.Ints(who)
 				live = fmt.Sprintf("round-1 cache holds partials of indices %v", who)
+				for _, idx := range who {
+					if idx == v.index {
+						atomic.StoreInt32(&ownCached, 1)
+					}
+				}
 			}
 		}
 		smu.Lock()
@@ -330,6 +336,24 @@ func c12FloodRun(run *vfRun, c c12FloodCase) {
 	}
 	nt.Settle()
 	nt.Step(cfg.Period * 5) // clock at round ~4: partials for rounds 1..4 pass the window (head 0 + 4) and the clock check
+	// precondition, not a verdict: the victim's own partial for round 1 is in its cache. The handler registers its
+	// tick channel with the ticker asynchronously; a first tick that fires before the registration is consumed is
+	// not delivered to it (in real time the next one follows a period later; here the clock only moves when the
+	// harness moves it), so further periods are stepped until the cache hook has shown the victim's index.
+	for extra := 0; atomic.LoadInt32(&ownCached) == 0; extra++ {
+		for i := 0; i < 200 && atomic.LoadInt32(&ownCached) == 0; i++ {
+			time.Sleep(10 * time.Millisecond)
+		}
+		if atomic.LoadInt32(&ownCached) != 0 {
+			break
+		}
+		if extra == 5 {
+			run.Inconclusive("the victim's own partial for round 1 never appeared in its cache (6 ticks offered)")
+			return
+		}
+		run.Count("extra_ticks_for_own_partial", 1)
+		nt.Step(cfg.Period)
+	}
 	seed := nt.group.GenesisSeed
 	prevOf := func() []byte { return seed } // honest nodes always carry the last signature, also in unchained schemes
 	// t-2 honest members' partials for round 1 arrive before the flood (the victim's own is cached by its tick)
